@@ -130,6 +130,10 @@ def spec_hash(files):
 
 def gen_scenarios(prop, module, cfg, deps, consts=None, workers=4, timeout=1800, simulate=None, tag="REPLAY"):
     """GEN: run the model checker on MC module; every emitted history is one scenario.
+    Models that cut the search with a CONSTRAINT on the history length while the VIEW hides the history (MC_Txn,
+    MC_Idx) must be generated with workers=1: only strict breadth-first order guarantees that every state is
+    first reached by a shortest history, i.e. that the bound means "all histories up to that depth" and that the
+    emitted set is the same on every run.
     Cached in run/cache by the hash of the spec files + cfg + constants.
     Returns (scenarios, stats) where stats = dict(states_generated, distinct_states, mc_ok, wall)."""
     cfg_text = open(os.path.join(SPEC, cfg)).read()
@@ -143,6 +147,8 @@ def gen_scenarios(prop, module, cfg, deps, consts=None, workers=4, timeout=1800,
     if os.path.exists(cpath):
         with open(cpath) as fh:
             d = json.load(fh)
+        for i, sc in enumerate(d["scenarios"]):     # the cache is shared between properties: ids carry the caller's
+            sc["id"] = "%s-%s-%06d" % (prop, module, i)
         return d["scenarios"], d["stats"]
     wd = os.path.join(RUN, "gen_%s_%s_%d" % (prop, module, os.getpid()))
     os.makedirs(wd, exist_ok=True)
